@@ -5,6 +5,7 @@ import os
 import random
 import re
 import lib
+import c10gen
 from lib import esc, unesc
 
 BIN = "c10"
@@ -917,7 +918,7 @@ def run(ctx):
     if not ok:
         lib.log(out[-4000:])
         ctx.broken.append("harness c10 does not build against the current tree: " + lib._first_errors(out))
-    ctx.proof_stage()
+    ctx.proof_stage(gens=[c10gen.gen_redir_tables])
     if not ok:
         return
     cdir = os.path.join(lib.ROOT, "corpus", PROP)
